@@ -101,6 +101,9 @@ type NftScenario struct {
 	AdvChains   []string
 	MaxAdv      int
 	Burns       bool
+	// OddDests: destination names that are no chain of the world (too short, containing '/'); offered through a relay
+	// chain, which is what lets the packet layer accept the send
+	OddDests []string
 	// MintInto: users also try MsgMintNFT of tok1 / tok7 into every class that exists on their chain (voucher classes
 	// included); counts against MaxAdv when it succeeds
 	MintInto bool
@@ -163,6 +166,21 @@ func (s NftScenario) Actions(m *PktModel, w *world.World, g Ghost) []UserAction 
 							return cc, w.Tx(cc, owner, msg)
 						}})
 					}
+				}
+			}
+			for _, od := range s.OddDests {
+				for _, rc := range w.Chains {
+					if rc == c {
+						continue
+					}
+					od, relay := od, rc.Name
+					label := fmt.Sprintf("xfer:%s:%s/%s>%s/%s:r0", c.Name, class, id, od, relay)
+					out = append(out, UserAction{Label: label, On: c.Name, Run: func(w *world.World) (*world.Chain, world.TxRes) {
+						cc := w.C(c.Name)
+						msg := nfttransfer.NewMsgNftTransfer(class, id, owner.Addr.String(), "someone", od, relay, "")
+						return cc, w.Tx(cc, owner, msg)
+					}})
+					break
 				}
 			}
 			if s.Burns {
